@@ -322,6 +322,7 @@ type TCPConn struct {
 	mu    sync.Mutex
 	raw   []byte // every byte received, unframed
 	eof   bool
+	slow  *int64 // ns to sleep before each read (a peer that reads slowly); nil = never
 }
 
 func (n *Net) newConn(name string, c net.Conn) *TCPConn {
@@ -347,6 +348,11 @@ func (t *TCPConn) start() {
 		var pend []byte
 		b := make([]byte, 65536)
 		for {
+			if t.slow != nil {
+				if d := atomic.LoadInt64(t.slow); d > 0 {
+					time.Sleep(time.Duration(d))
+				}
+			}
 			k, err := c.Read(b)
 			if k > 0 {
 				t.mu.Lock()
@@ -434,6 +440,18 @@ type TCPListener struct {
 	n     *Net
 	mu    sync.Mutex
 	conns []*TCPConn
+	slow  int64
+	small bool
+}
+
+// SlowRead makes every connection of the listener sleep d before each read (0 = full
+// speed again); with smallWindow, connections accepted from now on get a 8 KiB
+// receive buffer so that the peer's writes block early.
+func (l *TCPListener) SlowRead(d time.Duration, smallWindow bool) {
+	atomic.StoreInt64(&l.slow, int64(d))
+	l.mu.Lock()
+	l.small = smallWindow
+	l.mu.Unlock()
 }
 
 // Listen binds a TCP listener.
@@ -452,7 +470,11 @@ func (n *Net) Listen(name, addr string) (*TCPListener, error) {
 			}
 			c.(*net.TCPConn).SetNoDelay(true)
 			t := n.newConnObj(name, c)
+			t.slow = &l.slow
 			l.mu.Lock()
+			if l.small {
+				c.(*net.TCPConn).SetReadBuffer(8192)
+			}
 			l.conns = append(l.conns, t)
 			l.mu.Unlock()
 			n.mu.Lock()
